@@ -502,6 +502,9 @@ func (Implementation) Drotm(n int, x []float64, incX int, y []float64, incY int,
 		panic(shortY)
 	}
 
+	if p.Flag < blas.Identity || blas.Diagonal < p.Flag {
+		panic(badFlag)
+	}
 	if p.Flag == blas.Identity {
 		return
 	}
